@@ -172,10 +172,12 @@ func c16World(c c16Case) (*harness.World, error) {
 		u.LastAttempt = now.Add(-time.Duration(c.LastAgoS) * time.Second)
 		if c.Kind == "locked-pw" {
 			u.Locked = now.Add(time.Duration(c.LockInS) * time.Second)
+		} else if c.Kind == "recover-exists" && c.Cfg.Accounts[0].Locked {
+			u.Locked = now.Add(time.Duration(c.LockInS) * time.Second)
 		} else {
 			u.Locked = time.Time{}
 		}
-		u.Confirmed = true
+		u.Confirmed = !(c.Kind == "recover-exists" && c.Cfg.Accounts[0].Unconfirmed)
 		switch c.KnownPW {
 		case "empty":
 			u.Password = ""
@@ -347,6 +349,12 @@ func c16Gen(t *rapid.T) c16Case {
 		}
 	}
 	c.Cfg.Accounts[0].Locked, c.Cfg.Accounts[0].Unconfirmed = false, false
+	if c.Kind == "recover-exists" {
+		// (b) holds whatever state the existing account is in: locked (by failures or by the application's
+		// lock.Lock), not yet confirmed - a recovery request for it answers like one for nobody
+		c.Cfg.Accounts[0].Locked = c.Cfg.Has("lock") && chance(t, "reclocked", 35)
+		c.Cfg.Accounts[0].Unconfirmed = c.Cfg.Has("confirm") && chance(t, "recunconfirmed", 25)
+	}
 	if c.Kind == "login-exists" {
 		c.KnownPW = pick(t, "knownpw", "", "", "", "empty", "garbage")
 	}
